@@ -23,9 +23,21 @@ pub fn run(ctx: &Ctx) -> i32 {
     let cases = ctx.cases(400_000, 12_000_000);
     let r = run_recipes(ctx.seed, cases, ctx.threads, 6, |r, stats| {
         let fmt = if r.sel[7] & 1 == 0 { Fmt::F64 } else { Fmt::F32 };
-        let c = match pick_w(r.sel[0], &[72, 24, 4]) {
+        let c = match pick_w(r.sel[0], &[66, 22, 4, 4, 4]) {
             0 => gen::g_g(fmt, r, lim),
             2 => gen::g_p(fmt, r),
+            3 => {
+                // long digit strings with *any* exponent class (the quantifier says "all exponents"), incl. i32 extremes
+                let mut r2 = r.clone();
+                r2.sel[2] = 0x6000u16.wrapping_add(r.sel[2] / 2); // lengths >= 22
+                gen::g_a(fmt, &r2, lim)
+            }
+            4 => {
+                let mut r2 = r.clone();
+                r2.sel[6] = 0xF000; // uncompensable exponents next to the i32 limits, long digit strings
+                r2.sel[2] = 0x6000u16.wrapping_add(r.sel[2] / 2);
+                gen::g_f(fmt, &r2, lim)
+            }
             _ => {
                 // closest approaches with tails only
                 let mut r2 = r.clone();
